@@ -218,6 +218,10 @@ def run(ctx):
                             key='PROV:%s:fragment-fresh-cache' % RECV)
 
     cache_threading(ctx, 'C14.5-cache-threading')
+    # cached atoms are created with Atom::new (cache.insert(idx, Atom::new(text))): its interning tables must give back the same text
+    ctx.rule('C14.3-atom-interning', 'every atom-cache entry and every resolved reference goes through Atom::new, whose two interning tables agree entry by entry', floor=1)
+    from ..etf import check_atom_tables
+    check_atom_tables(ctx, 'C14.3-atom-interning')
     # every place that accepts an atom accepts a cached-atom reference
     ctx.rule('C14.3-atom-positions', 'under a distribution header an atom may be written as ATOM_CACHE_REF wherever an atom is expected: every tag dispatch of the (cache-aware) owned decoder '
              'that lists the inline atom tags lists tag 82 as well', floor=1)
